@@ -31,6 +31,33 @@ def name(t):
     return f"t{t['id']}_test" if t.get("test") else f"t{t['id']}"
 
 
+# first lines of commands: grog shortens / prints / logs the first line of a command (status line, debug log, failure report).
+# Width classes (bytes per character) x lengths around the places where code might cut (66..72, 80, 120, 4096) x odd shapes.
+CHARSETS = {"ascii": "abcdefghij klmnop-qrstu_vwxyz0123456789", "latin": "äöüßéèàçñøåæœ", "cjk": "编译目标输出文件依赖缓存构建检查结果日本語テキスト한국어",
+            "emoji": "🚀🔥✅📦🧪🛠🐹🦀", "mixed": "aé编🚀 b-ñ語✅_"}
+BANNER_LENGTHS = [1, 2, 23, 24, 35, 36, 48, 60, 64, 65, 66, 67, 68, 69, 70, 71, 72, 73, 80, 100, 120, 127, 128, 129, 255, 256, 257, 1000, 4096, 20000]
+
+
+def gen_banner(rng):
+    """-> (kind, text): the text becomes the FIRST line(s) of a command; it is a shell no-op (comment, blank, blanks + comment)"""
+    shape = rng.choice(["comment", "comment", "comment", "comment", "empty-first", "leading-blanks", "tabs", "colon-noop", "crlf-free-blank-lines"])
+    cs = rng.choice(list(CHARSETS))
+    nchar = rng.choice(BANNER_LENGTHS) if rng.random() < 0.7 else rng.randint(1, 90)
+    chars = CHARSETS[cs]
+    text = "".join(rng.choice(chars) for _ in range(nchar)).replace("'", "")
+    if shape == "comment":
+        return f"comment:{cs}", "# " + text
+    if shape == "empty-first":
+        return "empty-first-line", ""
+    if shape == "leading-blanks":
+        return f"leading-blanks:{cs}", " \t   # " + text[:200]
+    if shape == "tabs":
+        return f"tabs:{cs}", "#\t" + "\t".join(text[i:i + 7] for i in range(0, min(len(text), 140), 7))
+    if shape == "colon-noop":
+        return f"colon-noop:{cs}", ": '" + text[:3000] + "'"
+    return "blank-lines", "\n\n"
+
+
 # ------------------------------------------------------------------------------------------------------------------
 # generation
 # ------------------------------------------------------------------------------------------------------------------
@@ -50,7 +77,8 @@ def gen_world(rng, focus=None):
     targets = []
     for i in range(n):
         t = {"id": i, "deps": [], "alias": {}, "outs": [], "checks": [], "tags": [], "sleep": rng.choice([0, 0, 0.05, 0.15, 0.3]),
-             "tail": rng.choice(OK_TAILS), "fail": None, "timeout": None, "cmdless": False, "test": False, "bin": False, "uses_bin": []}
+             "tail": rng.choice(OK_TAILS), "fail": None, "timeout": None, "cmdless": False, "test": False, "bin": False, "uses_bin": [],
+             "banner": None, "noise": 0}
         # dependencies: layered / wide / chain mixtures
         if i > 0:
             if shape < 0.3:          # wide: most targets hang off a few roots
@@ -93,15 +121,18 @@ def gen_world(rng, focus=None):
             t["test"] = True
         # output checks
         nc = rng.choice([0, 0, 0, 1, 2, 3] if not f3 else [0, 0, 1, 2, 2, 3])
-        t["checks"] = [{"sleep": rng.choice([0, 0.15, 0.3]), "expected": rng.random() < 0.4} for _ in range(nc)]
+        t["checks"] = [{"sleep": rng.choice([0, 0.15, 0.3]), "expected": rng.random() < 0.4, "fail": False,
+                        "banner": gen_banner(rng) if rng.random() < 0.25 else None} for _ in range(nc)]
+        if rng.random() < (0.6 if f4 else 0.4):
+            t["banner"] = gen_banner(rng)
         if leaf and not t["outs"] and t["checks"] and rng.random() < 0.5 and not t["test"]:
             t["cmdless"] = True
         if rng.random() < 0.1:
             t["tags"].append("no-cache")
         if rng.random() < 0.05:
             t["tags"].append("multiplatform-cache")
-        if rng.random() < 0.1:
-            t["timeout"] = "20s"                                           # generous: never fires
+        if rng.random() < (0.45 if cfg["fail_fast"] else 0.1):
+            t["timeout"] = rng.choice(["20s", "120s", "1h"])               # generous: never fires
     # aliases on dependency edges, alias of alias
     for t in targets:
         for d in t["deps"]:
@@ -133,12 +164,17 @@ def gen_world(rng, focus=None):
         t["fail"] = rng.choice(kinds)
         if t["fail"] == "timeout":
             t["timeout"] = "400ms"
-        if t["fail"] in ("check", "check-expected") and not t["checks"]:
-            t["checks"] = [{"sleep": 0, "expected": t["fail"] == "check-expected"}]
-        if t["fail"] == "check-expected":
-            t["checks"][0]["expected"] = True
-        if t["fail"] == "check":
-            t["checks"][0]["expected"] = False
+        if t["fail"] in ("check", "check-expected"):
+            # the failing check stands at a random position among 1..3 checks; the checks around it pass, each with or without
+            # expected_output: every order of (exit-status-only / expected_output) x (passing / failing) is reachable
+            want = rng.choice([1, 2, 2, 3, 3])
+            while len(t["checks"]) < want:
+                t["checks"].append({"sleep": 0, "expected": rng.random() < 0.5, "fail": False, "banner": None})
+            k = rng.randrange(len(t["checks"]))
+            t["checks"][k]["fail"] = True
+            t["checks"][k]["expected"] = t["fail"] == "check-expected"
+        if t["fail"] == "exit" and rng.random() < (0.5 if cfg["fail_fast"] else 0.2):
+            t["noise"] = rng.choice([1, 70, 300])                          # kB printed before failing: repeated in grog's report
     # history
     steps_pool = ["heal", "heal", "nothing", "taint", "lose-blobs", "rm-outputs", "break"]
     if f5:
@@ -193,7 +229,8 @@ def gen_world(rng, focus=None):
     nb = sum(1 for st in history if st["op"] == "build")
     if rng.random() < (0.3 if f4 else 0.12):
         interrupt = {"signal": rng.choice(["SIGINT", "SIGTERM"]), "delay": rng.choice([0.25, 0.5, 0.9]), "build": rng.randrange(nb)}
-    return {"cfg": cfg, "targets": targets, "history": history, "interrupt": interrupt, "healed_at_start": healed}
+    slow_reader = 0
+    return {"cfg": cfg, "targets": targets, "history": history, "interrupt": interrupt, "healed_at_start": healed, "slow_reader": slow_reader}
 
 
 def features(world):
@@ -239,6 +276,18 @@ def features(world):
             f.add("tag:" + tag)
         if t["timeout"]:
             f.add("timeout-attr")
+            if cfg["fail_fast"] and not t["fail"]:
+                f.add("fail-fast+bystander-timeout")
+        if t.get("banner"):
+            f.add("first-line:" + t["banner"][0])
+        if t.get("noise"):
+            f.add("noisy-failure")
+        for k, c in enumerate(t["checks"]):
+            if c.get("fail"):
+                before = ["E" if x["expected"] else "N" for x in t["checks"][:k]]
+                f.add("failing-check:" + "".join(before) + ("[E]" if c["expected"] else "[N]") + "".join("E" if x["expected"] else "N" for x in t["checks"][k + 1:]))
+            if c.get("banner"):
+                f.add("check-first-line")
         if t["alias"]:
             f.add("alias-dep")
             if 2 in t["alias"].values():
@@ -257,6 +306,10 @@ def features(world):
         f.add("interrupt:" + world["interrupt"]["signal"])
     if world.get("healed_at_start") and any(t["fail"] for t in world["targets"]):
         f.add("healed-at-start")
+    if world.get("slow_reader"):
+        f.add("slow-reader")
+    if world.get("designed"):
+        f.add("designed:" + world["designed"])
     return f
 
 
@@ -348,15 +401,16 @@ class World:
         checks = []
         for k, c in enumerate(t["checks"]):
             sl = f"sleep {c['sleep']}; " if c["sleep"] else ""
-            body = f'echo "cs {i}.{k} $(date +%s%N)" >> {tr}; {sl}echo "ce {i}.{k} $(date +%s%N)" >> {tr}; '
+            body = (c["banner"][1] + "\n") if c.get("banner") else ""
+            body += f'echo "cs {i}.{k} $(date +%s%N)" >> {tr}; {sl}echo "ce {i}.{k} $(date +%s%N)" >> {tr}; '
             cj = {}
             if c["expected"]:
-                if kind == "check-expected" and k == 0:
+                if c.get("fail"):
                     body += f"if test -f {F}; then echo ok; else echo bad; fi"
                 else:
                     body += "echo ok"
                 cj["expected_output"] = "ok"
-            elif kind == "check" and k == 0:
+            elif c.get("fail"):
                 body += f"test -f {F}"
             else:
                 body += "true"
@@ -369,6 +423,9 @@ class World:
             return j
         # the command
         parts = [f"trap 'echo \"x {i} $? $(date +%s%N)\" >> {tr}' EXIT", f'echo "s {i} $(date +%s%N)" >> {tr}']
+        if t.get("lean"):
+            # hundreds of these in one world: one fork per command; the exit record carries the start time
+            parts = [f'N=$(date +%s%N); echo "s {i} $N" >> {tr}', f"trap 'echo \"x {i} $? '$N'\" >> {tr}' EXIT"]
         for d in t["deps"]:
             dt = self.T[d]
             for o in dt["outs"][:2]:
@@ -378,6 +435,8 @@ class World:
         if kind in ("missing-first", "missing-middle", "missing-last", "missing-dir"):
             parts.append("rm -rf " + " ".join(o[1] for o in t["outs"]))      # stale outputs of an earlier build must not hide the failure
         if kind == "exit":
+            if t.get("noise"):
+                parts.append(f"test -f {F} || head -c {t['noise'] * 1024} /dev/zero | tr '\\0' 'x' | fold -w 100")
             parts.append(f"test -f {F} || exit 3")
         if kind == "timeout":
             parts.append(f"test -f {F} || exec sleep 30")
@@ -389,7 +448,8 @@ class World:
         if kind in ("missing-first", "missing-middle", "missing-last") and files:
             skip = files[0] if kind == "missing-first" else files[-1] if kind == "missing-last" else files[len(files) // 2]
         for o in files:
-            mk = f"head -c {o[2]} /dev/zero > {o[1]}" if o[2] else f"printf '%s\\n' '{o[1]} of t{i}' > {o[1]}"
+            mk = (f"truncate -s {o[2]} {o[1]}" if len(o) > 3 and o[3] == "sparse" else f"head -c {o[2]} /dev/zero > {o[1]}") if o[2] \
+                else f"printf '%s\\n' '{o[1]} of t{i}' > {o[1]}"
             parts.append(f"if test -f {F}; then {mk}; fi" if o is skip else mk)
         if dirs:
             if len(dirs) <= 3:
@@ -408,6 +468,8 @@ class World:
                     "bg": "( sleep 0.05; : ) & wait $!"}[t["tail"]]
         if tail:
             parts.append(tail)
+        if t.get("banner"):
+            parts.insert(0, t["banner"][1])
         j["command"] = "\n".join(parts)
         return j
 
@@ -430,22 +492,55 @@ class World:
     def build(self, interrupt=None):
         t0 = time.time()
         p = subprocess.Popen([self.grog, "build", "//..."], cwd=self.ws, env=self.env(), stdout=subprocess.PIPE, stderr=subprocess.STDOUT, text=True,
-                             start_new_session=True)
+                             errors="replace", start_new_session=True)
         sig_at, sig_ns = None, None
         if interrupt:
-            time.sleep(interrupt["delay"])
+            if interrupt.get("when") == "cas-file":
+                # the moment an output is being copied into the cache: the first file (temporary or not) under cache/cas
+                t_end = time.time() + 30
+                while time.time() < t_end and p.poll() is None and not self.cas_blobs(include_tmp=True):
+                    time.sleep(0.004)
+                time.sleep(interrupt.get("delay", 0))
+            else:
+                time.sleep(interrupt["delay"])
             if p.poll() is None:
                 sig_at, sig_ns = time.time(), time.time_ns()
                 try:
                     os.kill(p.pid, getattr(signal, interrupt["signal"]))
                 except ProcessLookupError:
                     sig_at = None
+                if sig_at and interrupt.get("freeze"):
+                    # a busy machine: the signal has been handled, then the process does not get the CPU for a while
+                    try:
+                        time.sleep(0.05)
+                        os.kill(p.pid, signal.SIGSTOP)
+                        t_f = time.time()
+                        # while nothing moves: whatever is visible in the CAS under a digest now is what an exit at this instant leaves
+                        self._frozen_audit = self.cas_audit() if self.world["cfg"]["hash_algorithm"] == "sha256" else []
+                        time.sleep(max(0, interrupt["freeze"] - (time.time() - t_f)))
+                        os.kill(p.pid, signal.SIGCONT)
+                    except OSError:
+                        pass
+        if self.world.get("slow_reader") and not interrupt:
+            time.sleep(self.world["slow_reader"])
         try:
             out, _ = p.communicate(timeout=WALL)
             rc = p.returncode
         except subprocess.TimeoutExpired:
-            p.kill()
-            out, _ = p.communicate()
+            # ask the Go runtime for a goroutine dump (SIGQUIT) before killing: a hang that does not repeat is otherwise lost
+            try:
+                os.kill(p.pid, signal.SIGQUIT)
+                out, _ = p.communicate(timeout=5)
+            except (subprocess.TimeoutExpired, OSError):
+                for pid in session_pids(p.pid) + [p.pid]:
+                    try:
+                        os.kill(pid, signal.SIGKILL)
+                    except OSError:
+                        pass
+                try:
+                    out, _ = p.communicate(timeout=10)
+                except subprocess.TimeoutExpired:
+                    out = ""
             rc = 124
         t_exit = time.time()
         wall = t_exit - t0
@@ -460,18 +555,42 @@ class World:
             except OSError:
                 pass
         return {"rc": rc, "out": out, "wall": wall, "trace": self.read_trace(), "sig_latency": (t_exit - sig_at) if sig_at else None,
-                "signalled": sig_at is not None, "sig_ns": sig_ns, "shells_left": shells_left}
+                "signalled": sig_at is not None, "sig_ns": sig_ns, "shells_left": shells_left, "frozen_audit": self.__dict__.pop("_frozen_audit", [])}
 
     def taint(self, ids):
         labels = [f"//pkg:{name(self.T[i])}" for i in ids]
         return subprocess.run([self.grog, "taint", *labels], cwd=self.ws, env=self.env(), capture_output=True, text=True, timeout=60)
 
-    def cas_blobs(self):
+    def cas_blobs(self, include_tmp=False):
         out = []
         for r, _, files in os.walk(self.root):
             if os.path.basename(r) == "cas":
-                out += [os.path.join(r, f) for f in files]
+                out += [os.path.join(r, f) for f in files if include_tmp or not f.startswith("tmp-")]
         return out
+
+    def cas_audit(self):
+        """sha256 worlds: every blob filed under a digest has that digest. -> list of (name, size) of blobs that do not"""
+        bad = []
+        seen = self.__dict__.setdefault("_audited", {})
+        for f in self.cas_blobs():
+            nm = os.path.basename(f)
+            if len(nm) != 64:
+                continue
+            try:
+                st = os.stat(f)
+                if seen.get(f) == (st.st_size, st.st_mtime_ns):
+                    continue
+                h = hashlib.sha256()
+                with open(f, "rb") as fh:
+                    for chunk in iter(lambda: fh.read(1 << 22), b""):
+                        h.update(chunk)
+                if h.hexdigest() != nm:
+                    bad.append((nm[:16], st.st_size))
+                else:
+                    seen[f] = (st.st_size, st.st_mtime_ns)
+            except OSError:
+                pass
+        return bad
 
     def target_cache_entries(self):
         n = 0
@@ -615,6 +734,9 @@ def run_world(ctx, wname, world):
                 elif op == "rm-outputs":
                     w.rm_outputs([i for i in range(n) if rng.random() < 0.6])
                     disturbed = True
+                elif op == "rm-all-outputs":
+                    w.rm_outputs(range(n))
+                    disturbed = True
                 elif op == "break+taint-failing":
                     fl = [t["id"] for t in T if t["fail"]]
                     for i in fl:
@@ -648,6 +770,7 @@ def run_world(ctx, wname, world):
             summ["index"] = bi
             res["builds"].append(summ)
             world["_after_interrupt"] = bool(intr and b["signalled"])
+            world["_had_interrupt"] = bool(world.get("_had_interrupt") or (intr and b["signalled"]))
             if b["rc"] == 124:
                 break
             disturbed = False
@@ -675,7 +798,7 @@ def check_build(w, world, b, anc, ids, succeeded_ever, need_run, disturbed, inte
     # ---- C04: termination, crash --------------------------------------------------------------------------------------
     if rc == 124:
         V("C04", "build-hang", f"grog build did not return within {WALL} s" + (" after " + world["interrupt"]["signal"] if interrupted else ""))
-        summ["out_tail"] = out[-600:]
+        summ["out_tail"] = out[-20000:]
         return summ
     crash = next((l for l in out.splitlines() if l.startswith(("fatal error:", "panic:"))), None)
     if crash or rc not in (0, 1) and not (interrupted and rc < 0):
@@ -765,11 +888,25 @@ def check_build(w, world, b, anc, ids, succeeded_ever, need_run, disturbed, inte
     summ["peak"] = peak
     if peak > W:
         V("C03", "more-commands-than-workers", f"{peak} commands ran at the same time with num_workers={W}: {sorted(what)[:8]}")
+    if cfg["hash_algorithm"] == "sha256" and cfg["enable_cache"]:
+        wrong = w.cas_audit()
+        if wrong:
+            V("C18" if (interrupted or world.get("_had_interrupt")) else "C07", "cas-blob-does-not-match-its-digest",
+              f"blobs in the CAS whose content does not have the digest they are filed under (name, size): {wrong[:4]}"
+              + (" - after an interrupted build" if (interrupted or world.get("_had_interrupt")) else ""))
+    if b.get("frozen_audit"):
+        V("C18", "partial-cas-blob-visible-at-interrupt", f"{world['interrupt']['signal']} while an output was being copied into the cache, process frozen right after: the CAS "
+          f"shows entries under a digest their content does not (yet) have (name, size): {b['frozen_audit'][:3]}; an exit at this instant leaves them, and the next "
+          "build takes them for the complete blob")
     if interrupted:
         signame = world["interrupt"]["signal"]
         finished = "completed successfully" in out
-        if rc == 0 and not finished:
-            V("C18", "interrupt-exit-zero", f"the build was interrupted by {signame} before it finished but exited 0")
+        # shells that were running when the signal arrived and never reached their end: the build cannot have completed
+        cut = sorted(name(T[i]) for i in started if b.get("sig_ns") and starts[i][0] < b["sig_ns"] and (i not in ends or (i in exits and exits[i][0] != 0)))
+        if rc == 0 and (not finished or cut):
+            V("C18", "interrupt-exit-zero", f"the build was interrupted by {signame} before it finished"
+              + (f" (the commands of {cut} were running and did not reach their end)" if cut else "") + " but exited 0"
+              + (" and reports success" if finished else ""))
         if b["sig_latency"] is not None and b["sig_latency"] > 5:
             V("C18", "interrupt-slow-exit", f"grog exited {b['sig_latency']:.1f} s after {signame} (bound 5 s)")
         if b.get("sig_ns"):
@@ -783,8 +920,11 @@ def check_build(w, world, b, anc, ids, succeeded_ever, need_run, disturbed, inte
         if b.get("shells_left"):
             V("C18", "target-shell-survived-grog", f"{signame}: target shell(s) {b['shells_left']} still run 0.5 s after grog exited")
         entries = w.target_cache_entries()
-        if cfg["enable_cache"] and entries > len(succeeded_ever | ok_now):
-            V("C18", "interrupted-target-cached", f"{entries} target results cached after the interrupt but only {len(succeeded_ever | ok_now)} targets ever completed")
+        # command-less targets complete (and are recorded) when their checks have run: they never appear in `started`
+        cmdless_done = {i for i in check_started if T[i]["cmdless"]}
+        if cfg["enable_cache"] and entries > len(succeeded_ever | ok_now | cmdless_done):
+            V("C18", "interrupted-target-cached", f"{entries} target results cached after the interrupt but only {len(succeeded_ever | ok_now | cmdless_done)} targets ever completed")
+        succeeded_ever |= cmdless_done
         # nothing more is required of an interrupted build. What completed before the signal may or may not have been
         # recorded: it counts as built for the upper bound on cache entries and is no longer *required* to run
         succeeded_ever |= ok_now
@@ -820,6 +960,14 @@ def check_build(w, world, b, anc, ids, succeeded_ever, need_run, disturbed, inte
     if cfg["fail_fast"] and failed_now:
         t_fail = min([exits[i][1] for i in failed_now if i in exits] or [0])
         if t_fail:
+            # statistic (no slack): commands that started after the failing script had exited. One such start is allowed by the
+            # property (the window between the process exiting and the walker observing the failure); whether they are systematic
+            # is decided over many builds, see run_worlds
+            after = sorted(name(T[i]) for i, ss in starts.items() if ss[0] > t_fail and i not in failed_now)
+            queued = len([i for i in range(n) if not T[i]["test"] and not T[i]["cmdless"] and i not in starts and not (anc[i] & failed_now) and i not in failed_now])
+            summ["post_failure_starts"] = after
+            summ["post_failure_starts_with_timeout"] = [m for m in after if T[ids[m]]["timeout"]]
+            summ["not_started"] = queued
             late = sorted((name(T[i]), round((ss[0] - t_fail) / 1e9, 2)) for i, ss in starts.items() if ss[0] > t_fail + 1.0e9)
             if late:
                 V("C05", "command-started-after-fail-fast", f"--fail-fast: commands started more than 1 s after the first failure: {late[:5]}")
@@ -865,6 +1013,9 @@ def check_build(w, world, b, anc, ids, succeeded_ever, need_run, disturbed, inte
             st = w.outputs_state(i)
             if st and i not in ok_now:
                 V("C05", "declared-output-absent-after-successful-build", f"build exited 0 (load_outputs=all) but outputs of {name(T[i])} are not in the workspace: {st[:3]}")
+                if world.get("_had_interrupt"):
+                    V("C18", "wrong-output-restored-after-interrupt", f"a build after the interrupted one exited 0 but the outputs of {name(T[i])} it restored from the "
+                      f"cache are not what the command produces: {st[:3]}")
     return summ
 
 
@@ -872,8 +1023,105 @@ def check_build(w, world, b, anc, ids, succeeded_ever, need_run, disturbed, inte
 # driver used by the property checks
 # ------------------------------------------------------------------------------------------------------------------
 
+def _blank_target(i, **kw):
+    t = {"id": i, "deps": [], "alias": {}, "outs": [("file", f"t{i}.out", 0)], "checks": [], "tags": [], "sleep": 0, "tail": "none", "fail": None,
+         "timeout": None, "cmdless": False, "test": False, "bin": False, "uses_bin": [], "banner": None, "noise": 0}
+    t.update(kw)
+    return t
+
+
+def designed_worlds(rng, focus):
+    """Worlds built by rule instead of by chance, in the same schema and under the same oracles as the random ones: cross products
+    and threshold sizes that a sample of 30 random worlds reaches only now and then.
+      check-orders        every order of (exit-status-only | expected_output) x (passing | failing) over 2 checks and the 3-check orders
+                          with the failing check last; each such target has a dependant; two builds
+      ff-bystanders       fail-fast, 1-3 workers, one failing target, nine independent quick bystanders (more ready targets than workers),
+                          most of them with a `timeout:`. Only the jobs already in the pool's channel (<= num_workers) can start after
+                          the failure, and they do so at once: see the statistic `post_failure_starts` and its oracle
+      first-lines         one target (and one output check) per (character width class x length around 64..73 / 128 / 256 / 4096)
+      many-failures-N     keep-going, N independent failing leaves for N around multiples of 256, one healthy target
+      interrupt-queued    SIGINT / SIGTERM while more targets are ready than there are workers, then another build"""
+    out = []
+    cfg0 = {"num_workers": 4, "fail_fast": False, "load_outputs": "all", "enable_cache": True, "disable_default_shell_flags": False, "hash_algorithm": "xxh3"}
+    base = {"interrupt": None, "healed_at_start": False, "slow_reader": 0}
+    if focus in ("C05", None):
+        T = []
+        combos = [(a, b, f) for a in (False, True) for b in (False, True) for f in (None, 0, 1)]
+        combos3 = [(a, b, c) for a in (False, True) for b in (False, True) for c in (False, True)]
+        for a, b, f in combos:
+            i = len(T)
+            checks = [{"sleep": 0, "expected": a, "fail": f == 0, "banner": None}, {"sleep": 0, "expected": b, "fail": f == 1, "banner": None}]
+            T.append(_blank_target(i, checks=checks, fail=None if f is None else ("check-expected" if (a, b)[f] else "check")))
+            T.append(_blank_target(i + 1, deps=[i]))
+        for a, b, c in combos3:
+            i = len(T)
+            checks = [{"sleep": 0, "expected": a, "fail": False, "banner": None}, {"sleep": 0, "expected": b, "fail": False, "banner": None},
+                      {"sleep": 0, "expected": c, "fail": True, "banner": None}]
+            T.append(_blank_target(i, checks=checks, fail="check-expected" if c else "check"))
+            T.append(_blank_target(i + 1, deps=[i]))
+        out.append(dict(base, designed="check-orders", cfg=dict(cfg0, num_workers=8), targets=T,
+                        history=[{"op": "build"}, {"op": "nothing"}, {"op": "build"}]))
+        for workers in (1, 2, 3, 1, 2, 3):
+            T = [_blank_target(0, fail="exit", noise=rng.choice([0, 1, 300]), sleep=0.2)]
+            for i in range(1, 10):
+                T.append(_blank_target(i, sleep=0.1, timeout=rng.choice(["20s", "120s", "1h"]) if rng.random() < 0.8 else None))
+            out.append(dict(base, designed="ff-bystanders", cfg=dict(cfg0, num_workers=workers, fail_fast=True), targets=T, history=[{"op": "build"}]))
+        for nf in ([256, 512] if rng.random() < 0.5 else [512, 256]):
+            T = [_blank_target(0)]
+            for i in range(1, nf + 1):
+                T.append(_blank_target(i, fail="exit", outs=[], lean=True))
+            out.append(dict(base, designed=f"many-failures-{nf}", cfg=dict(cfg0, num_workers=8), targets=T, history=[{"op": "build"}]))
+        nf = rng.choice([255, 257, 511, 513])
+        T = [_blank_target(0)] + [_blank_target(i, fail="exit", outs=[], lean=True) for i in range(1, nf + 1)]
+        out.append(dict(base, designed=f"many-failures-{nf}", cfg=dict(cfg0, num_workers=8), targets=T, history=[{"op": "build"}]))
+    if focus in ("C04", None):
+        T = []
+        for cs in CHARSETS:
+            for nchar in (23, 24, 35, 36, 64, 66, 67, 68, 70, 71, 73, 128, 256, 4096):
+                text = "".join(rng.choice(CHARSETS[cs]) for _ in range(nchar))
+                i = len(T)
+                chk = [{"sleep": 0, "expected": rng.random() < 0.5, "fail": False, "banner": (f"comment:{cs}", "# " + text)}] if nchar in (24, 67, 128) else []
+                T.append(_blank_target(i, banner=(f"comment:{cs}", "# " + text), checks=chk, lean=True))
+        for shape in ("", "\n\n", " \t  # x", ": 'ü'"):
+            T.append(_blank_target(len(T), banner=("shape", shape), lean=True))
+        out.append(dict(base, designed="first-lines", cfg=dict(cfg0, num_workers=8), targets=T, history=[{"op": "build"}, {"op": "nothing"}, {"op": "build"}]))
+        # an interrupt that arrives while more targets are ready than there are workers (jobs sit in the pool's channel, callbacks
+        # are blocked in Run), followed by another build
+        for workers, sig in ((1, "SIGINT"), (2, "SIGTERM"), (3, rng.choice(["SIGINT", "SIGTERM"]))):
+            T = [_blank_target(i, sleep=0.4, timeout="20s" if rng.random() < 0.3 else None) for i in range(10)]
+            out.append(dict(base, designed="interrupt-queued", cfg=dict(cfg0, num_workers=workers), targets=T,
+                            history=[{"op": "build"}, {"op": "nothing"}, {"op": "build"}],
+                            interrupt={"signal": sig, "delay": rng.choice([0.5, 0.7]), "build": 0}))
+    if focus == "C18":
+        # (a) the signal arrives while the big output of a FINISHED command is being copied into the cache; then build again, remove
+        #     the outputs, build a third time (cache hit): CAS audit (sha256: every blob has the digest it is filed under) and bytes
+        for freeze, size in ((0.8, 500 << 20), (0.6, 300 << 20)):
+            T = [_blank_target(0, outs=[("file", "t0.big", size, "sparse")]), _blank_target(1, deps=[0], alias={0: 1})]
+            out.append(dict(base, designed="interrupt-output-write", cfg=dict(cfg0, num_workers=2, hash_algorithm="sha256"), targets=T,
+                            history=[{"op": "build"}, {"op": "nothing"}, {"op": "build"}, {"op": "rm-all-outputs"}, {"op": "build"}],
+                            interrupt={"signal": rng.choice(["SIGINT", "SIGTERM"]), "when": "cas-file", "delay": 0, "freeze": freeze, "build": 0}))
+        # (b) running shells of targets that declare a `timeout:` (their command runs under a context of its own)
+        for sig in ("SIGINT", "SIGTERM"):
+            T = [_blank_target(i, sleep=3, timeout=("5m" if i % 2 else None)) for i in range(4)]
+            out.append(dict(base, designed="interrupt-timeout-shells", cfg=dict(cfg0, num_workers=4), targets=T,
+                            history=[{"op": "build"}, {"op": "nothing"}, {"op": "build"}],
+                            interrupt={"signal": sig, "delay": 0.7, "build": 0}))
+        # (c) late signal: everything but one slow target has completed, and the selection contains aliases (nodes that complete
+        #     without being targets) on completed targets
+        for sig, depth in (("SIGINT", 1), ("SIGTERM", 2)):
+            T = [_blank_target(0), _blank_target(1, deps=[0], alias={0: depth}), _blank_target(2, deps=[1], alias={1: depth}, sleep=3)]
+            out.append(dict(base, designed="interrupt-late-with-aliases", cfg=dict(cfg0, num_workers=2), targets=T,
+                            history=[{"op": "build"}, {"op": "nothing"}, {"op": "build"}],
+                            interrupt={"signal": sig, "delay": 1.2, "build": 0}))
+    return out
+
+
 def force_interrupt(world, rng):
-    """C18: every world gets an interrupt, on a build that is followed by another one"""
+    """C18: every world gets an interrupt, on a build that is followed by another one; a third of the targets declare a generous
+    `timeout:` (their command runs under a context of its own)"""
+    for t in world["targets"]:
+        if not t["timeout"] and rng.random() < 0.35:
+            t["timeout"] = rng.choice(["20s", "5m", "1h"])
     nb = sum(1 for st in world["history"] if st["op"] == "build")
     if nb == 1:
         world["history"] += [{"op": "nothing"}, {"op": "build"}]
@@ -890,24 +1138,50 @@ def run_worlds(ctx, nworlds, focus, threads=4, interrupt_all=False):
     if ctx.grog_binary() is None:
         return [], {}
     seeds = [ctx.rng.randrange(1 << 30) for _ in range(nworlds)]
+    designed = designed_worlds(random.Random(ctx.rng.randrange(1 << 30)), "C18" if interrupt_all else focus)
+    seeds = [-(k + 1) for k in range(len(designed))] + seeds
 
     def one(k, seed):
-        world = gen_world(random.Random(seed), focus)
-        if interrupt_all:
+        world = designed[-seed - 1] if seed < 0 else gen_world(random.Random(seed), focus)
+        if interrupt_all and seed >= 0:
             force_interrupt(world, random.Random(seed + 1))
         r = run_world(ctx, f"world-{focus}-{k}", world)
         r["seed"] = seed
         if r["bad"]:
             world.pop("_after_interrupt", None)
+            world.pop("_had_interrupt", None)
             r2 = run_world(ctx, f"world-{focus}-{k}-again", world)
             sig2 = {(p, s) for p, s, _ in r2["bad"]}
             r["unconfirmed"] = [(p, s) for p, s, _ in r["bad"] if (p, s) not in sig2]
+            if r["unconfirmed"]:
+                r["unconfirmed_detail"] = [b["out_tail"] for b in r["builds"] if b.get("out_tail")][:1]
             r["bad"] = [x for x in r["bad"] if (x[0], x[1]) in sig2]
         return r
     results = []
     with cf.ThreadPoolExecutor(max_workers=threads) as ex:
         for f in [ex.submit(one, k, s) for k, s in enumerate(seeds)]:
             results.append(f.result())
+    # ---- fail-fast, decided over all worlds: are command starts after the first failure systematic? -----------------------------
+    def ff_hit(r):
+        return any(b.get("post_failure_starts") for b in r["builds"])
+    ff_builds = [b for r in results for b in r["builds"] if "post_failure_starts" in b]
+    hit_worlds = [r for r in results if ff_hit(r)]
+    ff_stat = {"fail_fast_builds_with_a_failure": len(ff_builds), "with_a_start_after_the_failure": sum(1 for b in ff_builds if b["post_failure_starts"])}
+    if len(hit_worlds) >= 3 and ff_stat["with_a_start_after_the_failure"] >= 0.15 * len(ff_builds):
+        again = []
+        with cf.ThreadPoolExecutor(max_workers=threads) as ex:
+            for r in hit_worlds[:8]:
+                r["world"].pop("_after_interrupt", None)
+            for f in [ex.submit(run_world, ctx, f"world-{focus}-ff-again-{k}", r["world"]) for k, r in enumerate(hit_worlds[:8])]:
+                again.append(f.result())
+        ff_stat["rerun_of_the_worlds_with_such_a_start"] = [ff_hit(r) for r in again]
+        if sum(ff_hit(r) for r in again) >= 2:
+            ex_b = next(b for b in hit_worlds[0]["builds"] if b.get("post_failure_starts"))
+            hit_worlds[0]["bad"].append(("C05", "fail-fast-starts-after-failure-systematic",
+                                         f"--fail-fast: in {ff_stat['with_a_start_after_the_failure']} of {len(ff_builds)} builds with a failing target a command started "
+                                         f"after the failing script had exited (e.g. {ex_b['post_failure_starts']}), and again in {sum(ff_hit(r) for r in again)} of "
+                                         f"{len(again)} reruns of those worlds; one such start is a scheduling accident, this many are not "
+                                         f"(started targets that declare a timeout: {[b.get('post_failure_starts_with_timeout') for r in hit_worlds for b in r['builds'] if b.get('post_failure_starts')][:6]})"))
     feat, pairs = {}, {}
     for r in results:
         fs = r["features"]
@@ -921,6 +1195,8 @@ def run_worlds(ctx, nworlds, focus, threads=4, interrupt_all=False):
            "feature_pairs_covered": len(pairs), "feature_pairs_top": dict(sorted(pairs.items(), key=lambda kv: -kv[1])[:40]),
            "feature_pairs_once": sum(1 for v in pairs.values() if v == 1),
            "unconfirmed_oracle_failures": [(r["seed"], r["unconfirmed"]) for r in results if r.get("unconfirmed")],
+           "unconfirmed_oracle_failure_output": [(r["seed"], r["unconfirmed_detail"]) for r in results if r.get("unconfirmed_detail")][:3],
+           "fail_fast_post_failure_starts": ff_stat,
            "max_wall_s": max([b["wall"] for r in results for b in r["builds"]] or [0])}
     return results, cov
 
